@@ -40,7 +40,7 @@ ASSUMPTIONS = [
     "frame-indifference tolerance 1e-7*(1+scale) with Newton tolerance 1e-10",
 ]
 REQUIRED_PROBES = {"quick": ["static_with_initial_velocities", "cantilever_solved", "frame_indifference_checked", "riks_points_checked", "signorini_static_closed", "fault_fired", "rigid_static_solved"]}
-KINDS = ["cantilever", "cantilever", "frame", "rigid", "signorini", "riks_truss", "riks_cantilever", "cantilever_fault", "frame"]
+KINDS = ["cantilever", "cantilever", "frame", "rigid", "signorini", "riks_truss", "riks_cantilever", "cantilever_fault", "frame", "signorini_linear"]
 
 
 def gen(rng, tier, index):
@@ -81,6 +81,18 @@ def gen(rng, tier, index):
                 if rng.random() < 0.5:
                     lw.update(type="kv", d=float(rng.uniform(1, 10)))
             plan["moving_initial_state"] = True
+    elif kind == "signorini_linear":
+        # linear structures (bodies on prismatic guides and axial springs) whose contacts close in the MIDDLE of a load
+        # step: Newton's update computed with the old contact state is exact, the contact state changes in the last
+        # iteration
+        n = int(rng.integers(1, 3))
+        plan["n_load_steps"] = int(rng.integers(2, 7))
+        plan["cols"] = []
+        for i in range(n):
+            k = float(rng.uniform(5, 40))
+            F = float(rng.uniform(2, 10))
+            tc = float((int(rng.integers(0, plan["n_load_steps"])) + rng.uniform(0.2, 0.8)) / plan["n_load_steps"])  # closing load fraction
+            plan["cols"].append({"k": k, "F": F, "gap": F * tc / k, "m": float(rng.uniform(0.5, 2)), "x": 2.0 * i})
     elif kind in ("signorini", "riks_signorini"):
         if kind == "riks_signorini":
             plan["la_arc0"] = float(rng.choice([1e-3, 1e-2]))
@@ -127,6 +139,23 @@ def build_cantilever(plan, moved):
     with contextlib.redirect_stdout(io.StringIO()):
         system.assemble(options=SolverOptions(compute_consistent_initial_conditions=False))
     return system, rod
+
+
+def build_signorini_linear(plan):
+    """Bodies on vertical prismatic guides, each hanging on an axial spring from an anchor straight above, pressed down
+    by a ramped force towards a frictionless plane at distance ``gap`` below."""
+    sc = {"t0": 0.0, "bodies": [], "frames": [], "joints": [], "tpis": [], "laws": [], "actuators": [], "forces": [], "contacts": []}
+    for i, c in enumerate(plan["cols"]):
+        rad = 0.1
+        z = rad + c["gap"]
+        sc["bodies"].append({"kind": "rigid", "m": c["m"], "theta": [0.01, 0.01, 0.01], "r": [c["x"], 0.0, z], "p": [1.0, 0, 0, 0], "v": [0, 0, 0], "w": [0, 0, 0]})
+        sc["frames"].append({"r": [c["x"], 0.0, z + 1.0], "p": [1.0, 0, 0, 0], "motion": None})
+        sc["joints"].append({"type": "prismatic", "a": "origin", "b": ["body", i], "axis": 2, "rJ": [c["x"], 0.0, z], "pJ": [1.0, 0, 0, 0]})
+        sc["tpis"].append({"a": ["frame", i], "b": ["body", i], "ra": [0, 0, 0], "rb": [0, 0, 0]})
+        sc["laws"].append({"type": "spring", "on": ["tpi", i], "k": c["k"], "l_ref": None, "compliance": False})
+        sc["forces"].append({"type": "force", "body": i, "vec": [0.0, 0.0, -c["F"]], "rB": [0, 0, 0], "time": "ramp"})
+        sc["contacts"].append({"type": "s2p", "plane": {"r": [0, 0, 0], "p": [1.0, 0, 0, 0]}, "body": i, "radius": rad, "mu": 0.0, "eN": 0.0, "eF": 0.0})
+    return sc
 
 
 def build_signorini(plan):
@@ -313,6 +342,19 @@ def execute(plan, out, log):
                 if plan.get("moving_initial_state"):
                     out["probes"]["static_with_initial_velocities"] += 1
                 moved_last = float(np.max(np.abs(np.asarray(sol.q)[-1] - system.q0)))
+                out["steps"] = len(sol.t)
+            elif kind == "signorini_linear":
+                B = build(build_signorini_linear(plan), options=SolverOptions(compute_consistent_initial_conditions=False))
+                system = B.system
+                sol, opts = _solve_newton(system, plan, sim)
+                if sim.failed_instances():
+                    raise Discard("organic_nonconvergence")
+                if not check_points(system, sol, opts, out, "linear_columns_on_plane", "bodies on prismatic guides pressed onto a plane"):
+                    return
+                gN = np.array([system.g_N(float(t_), q_) for t_, q_ in zip(sol.t, sol.q)])
+                if np.any(np.diff((gN > 1e-9).astype(int), axis=0) != 0):
+                    out["probes"]["contact_closed_inside_a_load_step"] += 1
+                moved_last = 1.0
                 out["steps"] = len(sol.t)
             elif kind == "signorini":
                 B = build(build_signorini(plan), options=SolverOptions(compute_consistent_initial_conditions=False))
